@@ -376,7 +376,10 @@ MilestoneExpired(s) ==
   /\ \/ P.msref[s] \notin DOMAIN st
      \/ (st[P.msref[s]].status # P.msstatus[s] /\ st[P.msref[s]].status \in Complete)
 MutexBlocked(s) == P.mutex[s] # "" /\ \E o \in Stages \ {s} : o \in DOMAIN st /\ P.mutex[o] = P.mutex[s] /\ st[o].status = "RUNNING"
-ChoiceClaimed(s) == P.choice[s] # "" /\ \E o \in Stages \ {s} : o \in DOMAIN st /\ P.choice[o] = P.choice[s] /\ st[o].status # "NOT_STARTED"
+(* the fast path asks only for a stage that has NOT started: a zombie (claimed, killed before its plan commit) already
+   holds the choice - its cancelled siblings must not make it cancel itself (fix: property=C11, see known_findings.json) *)
+ChoiceClaimed(s) == P.choice[s] # "" /\ st[s].status = "NOT_STARTED"
+                    /\ \E o \in Stages \ {s} : o \in DOMAIN st /\ P.choice[o] = P.choice[s] /\ st[o].status # "NOT_STARTED"
 
 MutexKey(s)  == "mutex:" \o P.mutex[s]
 ChoiceKey(s) == "choice:" \o P.choice[s]
